@@ -194,11 +194,6 @@ package avfs
 //@   loop 2 invariant[C13] 0 <= i && i <= seps && n == 2 + 3*i && len(buf) == size
 //@   modifies nothing
 
-//@ func SplitAbs
-//@   requires vfs != nil
-//@   loop 0 invariant[C13] -1 <= i && i < len(path) && l - 1 <= i
-//@   modifies nothing
-
 //@ func FromUnixPath
 //@   requires vfs != nil
 //@   modifies nothing
